@@ -49,6 +49,11 @@ package ledger
 //   M4 signedtxn.go SummarizeFees: usage of the last transaction not counted
 //   M5 logic/eval.go opItxnSubmit: inner shortfall not deducted from the fee credit
 
+// Independent seeded changes: C24-A (proposer share rounded up for odd fee totals) DETECTED
+// through the odd fee totals 1001/3001; C24-B (AvailableBalance subtracting the bare
+// proto.MinBalance instead of the sink's own minimum balance) DETECTED since the ledgers
+// whose fee sink opted in to an asset were added.
+
 import (
 	"context"
 	"errors"
